@@ -144,7 +144,7 @@ def group(ctx, facts):
             for bb, t in c.calls():
                 if (F.callee(t)[0] or "") == ME + "add_report":
                     a = str(flow.expr_of(c, t["args"][1], max_depth=20))
-                    oka = "('upvar', 'report')" in a and flow.expr_of(c, t["args"][0]) == ("arg", 2)
+                    oka = re.search(r"\('upvar', '\w+'\)", a) is not None and flow.expr_of(c, t["args"][0]) == ("arg", 2)
         oka = oka and item in str(flow.expr_of(b, am[0][1]["args"][1], max_depth=30))
     ctx.ob("GROUP", "existing-key:add_report(report)", oka, "a repeated key goes through add_report with this report" if oka else "a repeated match key is not handled by add_report(this report)", site_of(b, am[0][0]) if am else site_of(b))
     oko = False
